@@ -74,7 +74,7 @@ def main():
         report(chk, cases, bad)
         return chk.finish()
     cases = A.api_schemas(chk, 60 if quick else 600)
-    hist, results = A.grow_histories(chk, cases, rng, 2 if quick else 4, 8 if quick else 24)
+    hist, results = A.grow_histories(chk, cases, rng, 4 if quick else 6, 12 if quick else 24)
     entries, bad = A.compare_in_coq(chk, cases, hist, results, "c10")
     report(chk, cases, bad)
     nops = 0
